@@ -49,6 +49,8 @@ enum H {
     ClrM(usize),
     GetM(usize, i64),
     Seq(Box<H>, Box<H>),
+    /// a.and_then(|()| b)
+    Then(Box<H>, Box<H>),
     /// suspend a future (yielding `yields` times) that results in the handler `body` (index into the table)
     Suspend(usize, u32),
 }
@@ -166,6 +168,11 @@ fn build(sh: &Shared, ctx: HandlerContext<TestAgent>, h: &H) -> BoxEventHandler<
             ctx.get_entry(ML[l], k).and_then(move |v: Option<i64>| ctx.effect(move || trace.lock().push(Ev::GotM(l, k, v)))).boxed()
         }
         H::Seq(a, b) => build(sh, ctx, a).followed_by(build(sh, ctx, b)).boxed(),
+        H::Then(a, b) => {
+            let sh2 = sh.clone();
+            let b2 = (**b).clone();
+            build(sh, ctx, a).and_then(move |_: ()| build(&sh2, ctx, &b2)).boxed()
+        }
         H::Suspend(i, yields) => {
             let (i, yields) = (*i, *yields);
             let sh2 = sh.clone();
@@ -573,7 +580,15 @@ impl<'a> Gen<'a> {
                     H::Unit
                 }
             }
-            _ if depth > 0 => H::Seq(Box::new(self.handler(rank, depth - 1)), Box::new(self.handler(rank, depth - 1))),
+            _ if depth > 0 => {
+                let a = Box::new(self.handler(rank, depth - 1));
+                let b = Box::new(self.handler(rank, depth - 1));
+                if self.rng.below(3) == 0 {
+                    H::Then(a, b)
+                } else {
+                    H::Seq(a, b)
+                }
+            }
             _ => H::Unit,
         }
     }
@@ -661,6 +676,7 @@ fn coq_h(h: &H) -> String {
         H::ClrM(l) => format!("(HClrM {})", l),
         H::GetM(l, k) => format!("(HGetM {} {})", l, z(*k)),
         H::Seq(a, b) => format!("(HSeq {} {})", coq_h(a), coq_h(b)),
+        H::Then(a, b) => format!("(HThen {} {})", coq_h(a), coq_h(b)),
         // the spawn is an effect; the body becomes a top-level handler where the runtime ran it
         H::Suspend(i, _) => format!("(HRecord (EEff {}))", SPAWN + *i as u64),
     }
